@@ -45,5 +45,7 @@ if os.path.exists(old):
     hist = prev.get("history", [])
     hist.append({"repo_head": prev.get("confirmed_by_me", {}).get("repo_head"), "checks_run": prev.get("checks_run"), "caught_by": prev.get("caught_by")})
     keep["history"] = hist
+    if prev.get("note"):
+        keep["note"] = prev["note"]  # e.g. why a change is not reported by design
 json.dump(keep, open(old, "w"), indent=1)
 print("kept", dst, "caught_by", keep["caught_by"])
